@@ -166,7 +166,12 @@ func VerifC07Misbehaviour() {
 	sig1, sig2 := make([]int, nv), make([]int, nv)
 	if defect == 0 {
 		for j := 0; j < 2; j++ {
-			sig1[j] = vh.ConcretizeInt(vh.Int(vh.Sprintf("sig1_%d", j)), 0, vSigBadKey)
+			sig1[j] = vSigValid
+			if j == 0 || vh.Bound("full_patterns", 0) == 1 {
+				// bound full_patterns=0 (quick tier): validator 1 signs header 1 validly, its
+				// signature on header 2 is absent / valid / foreign-key
+				sig1[j] = vh.ConcretizeInt(vh.Int(vh.Sprintf("sig1_%d", j)), 0, vSigBadKey)
+			}
 			sig2[j] = vh.ConcretizeInt(vh.Int(vh.Sprintf("sig2_%d", j)), 0, vSigBadKey)
 		}
 		// validator 2: absent on both, signs both, signs one block and precommits nil for the other, signs only one
